@@ -224,6 +224,11 @@ class SortedSetSpec(Spec):
             raise Mismatch("len", "len(s) -> %r, reference %d" % (r, len(model)))
         if self.sparse:
             return
+        # an iteration that is still open while a second one runs and members are probed (nothing is modified)
+        r = observe(lambda: [(x, list(s), x in s) for x in s])
+        if r[0] != "ok" or not same_seq([t[0] for t in r[1]], exp) or not all(same_seq(t[1], exp) and t[2] is True for t in r[1]):
+            raise Mismatch("content", "[(x, list(s), x in s) for x in s] -> %r with sorted(reference set) == %r" % (r, exp),
+                           {"view": "nested-iteration"})
         for p in PROBES:
             r = observe(s.__contains__, p)
             if r != ("ok", p in model):
@@ -495,6 +500,12 @@ class SortedMapSpec(Spec):
             raise Mismatch("len", "len(m) -> %r, reference %d" % (r, len(model)))
         if self.sparse:
             return
+        # an iteration that is still open while a second one runs and keys are looked up (nothing is modified)
+        r = observe(lambda: [(k, list(m), m[k]) for k in m])
+        if r[0] != "ok" or not same_seq([t[0] for t in r[1]], exp_keys) or \
+                not all(same_seq(t[1], exp_keys) and t[2] == model[e] for t, e in zip(r[1], exp_keys)):
+            raise Mismatch("content", "[(k, list(m), m[k]) for k in m] -> %r with reference items %r" % (r, exp_items),
+                           {"view": "nested-iteration"})
         for p in PROBES:
             present = p in model
             want = ("ok", model[p]) if present else ("exc", "KeyError")
